@@ -920,6 +920,13 @@ def role_shader0(rng, big_arrays=True, entry_names=False):
     S["entries"].append({"name": "vs_main", "stage": "vertex", "params": vparams, "result": vres, "body": uses("vertex"), "wg": []})
     if rng.random() < 0.3 and vparams:
         S["entries"].append({"name": "vs_shadow", "stage": "vertex", "params": list(reversed(vparams)), "result": {"k": "builtin", "b": "position"}, "body": uses("vertex"), "wg": []})
+    if rng.random() < 0.3:
+        taken = {m["io"]["n"] for x in S["structs"] if fparams and x["name"] == fparams[0]["ty"] for m in x["members"] if m.get("io", {}).get("k") == "loc"}
+        free = [n for n in range(0, 12) if n not in taken]
+        has_ff = any(m.get("io", {}).get("b") == "front_facing" for x in S["structs"] if fparams and x["name"] == fparams[0]["ty"] for m in x["members"])
+        fparams = fparams + [{"k": "loc", "name": "extra", "n": rng.choice(free), "ty": rng.choice(FLOATVECS)}] + ([] if has_ff else [{"k": "builtin", "name": "ff", "b": "front_facing"}])
+        if rng.random() < 0.5:
+            fparams.reverse()
     e = {"name": "fs_main", "stage": "fragment", "params": fparams, "body": uses("fragment"), "wg": []}
     if fres:
         e["result"] = fres
@@ -939,7 +946,7 @@ def role_shader0(rng, big_arrays=True, entry_names=False):
     return S, has_rt
 
 
-STRUCT_NAME_STYLES = [lambda n: n, lambda n: n, lambda n: n.lower(), lambda n: "".join("_" + c.lower() if c.isupper() and i else c.lower() for i, c in enumerate(n)),
+STRUCT_NAME_STYLES = [lambda n: n + "2D", lambda n: "HTTP" + n, lambda n: n[:2] + "__" + n[2:], lambda n: n[0], lambda n: n, lambda n: n, lambda n: n.lower(), lambda n: "".join("_" + c.lower() if c.isupper() and i else c.lower() for i, c in enumerate(n)),
                       lambda n: n[:3] + "_" + n[3:], lambda n: n[0].lower() + n[1:], lambda n: n + "_PBR", lambda n: n.upper()]
 
 
